@@ -103,6 +103,163 @@ class _IfExpToIf(ast.NodeTransformer):
         return self._split(st, st.value, lambda v: ast.copy_location(ast.Return(value=v), st))
 
 
+_FRESH_EMPTY = ("set", "list", "dict", "frozenset", "tuple")
+
+
+def _is_fresh_empty(e: ast.AST) -> bool:
+    if isinstance(e, (ast.List, ast.Set, ast.Tuple)) and not e.elts:
+        return True
+    if isinstance(e, ast.Dict) and not e.keys:
+        return True
+    return isinstance(e, ast.Call) and isinstance(e.func, ast.Name) and e.func.id in _FRESH_EMPTY and not e.args and not e.keywords
+
+
+def _is_pure_path(e: ast.AST) -> bool:
+    """a name or an attribute chain on a name (reading it twice is reading it once)"""
+    while isinstance(e, ast.Attribute):
+        e = e.value
+    return isinstance(e, ast.Name)
+
+
+class _Subst(ast.NodeTransformer):
+    def __init__(self, name: str, value: ast.AST):
+        self.name, self.value = name, value
+
+    def visit_Name(self, n):
+        if n.id == self.name and isinstance(n.ctx, ast.Load):
+            return ast.copy_location(copy.deepcopy(self.value), n)
+        return n
+
+
+class _Desugar(ast.NodeTransformer):
+    """Exact statement-level desugarings into the forms the engines read:
+      * `(A if c else B).m(args)`                      -> `if c: A.m(args) else: B.m(args)`
+      * `x = next((E for v in IT if C), D)`            -> `x = D; for v in IT: if C: x = E; break`
+      * `R.setdefault(K, <fresh empty>).m(args)`       -> `if K not in R: R[K] = <fresh empty>` ; `R[K].m(args)`     (also `x = R.setdefault(..)`)
+      * `for i in (c1, .., cn): BODY` over literal constants (no break / continue of that loop, i not rebound) -> BODY[i:=c1]; ..; BODY[i:=cn]
+    """
+
+    def visit_FunctionDef(self, n):
+        return n
+
+    visit_AsyncFunctionDef = visit_Lambda = visit_FunctionDef
+
+    # -- helpers
+    @staticmethod
+    def _fix(new, at):
+        for x in (new if isinstance(new, list) else [new]):
+            ast.copy_location(x, at)
+            ast.fix_missing_locations(x)
+        return new
+
+    def _setdefault(self, call: ast.AST):
+        if isinstance(call, ast.Call) and isinstance(call.func, ast.Attribute) and call.func.attr == "setdefault" and len(call.args) == 2 \
+                and not call.keywords and _is_pure_path(call.func.value) and _is_pure_path(call.args[0]) and _is_fresh_empty(call.args[1]):
+            r, k, v = call.func.value, call.args[0], call.args[1]
+            pre = ast.If(test=ast.Compare(left=copy.deepcopy(k), ops=[ast.NotIn()], comparators=[copy.deepcopy(r)]),
+                         body=[ast.Assign(targets=[ast.Subscript(value=copy.deepcopy(r), slice=copy.deepcopy(k), ctx=ast.Store())], value=v, lineno=call.lineno)],
+                         orelse=[])
+            item = ast.Subscript(value=copy.deepcopy(r), slice=copy.deepcopy(k), ctx=ast.Load())
+            return pre, item
+        return None
+
+    def visit_Expr(self, st):
+        c = st.value
+        if isinstance(c, ast.Call) and isinstance(c.func, ast.Attribute):
+            recv = c.func.value
+            if isinstance(recv, ast.IfExp):
+                def arm(v):
+                    call = ast.Call(func=ast.Attribute(value=v, attr=c.func.attr, ctx=ast.Load()), args=copy.deepcopy(c.args), keywords=copy.deepcopy(c.keywords))
+                    return self.visit(self._fix(ast.Expr(value=call), st))
+                a, b = arm(recv.body), arm(recv.orelse)
+                new = ast.If(test=recv.test, body=a if isinstance(a, list) else [a], orelse=b if isinstance(b, list) else [b])
+                return self._fix(new, st)
+            sd = self._setdefault(recv)
+            if sd is not None:
+                pre, item = sd
+                c.func.value = item
+                return self._fix([pre, st], st)
+        return st
+
+    def visit_Assign(self, st):
+        if len(st.targets) == 1 and isinstance(st.targets[0], ast.Name):
+            sd = self._setdefault(st.value)
+            if sd is not None:
+                pre, item = sd
+                st.value = item
+                return self._fix([pre, st], st)
+            nx = self._next(st.targets[0], st.value, st)
+            if nx is not None:
+                return nx
+        return st
+
+    def visit_AnnAssign(self, st):
+        if isinstance(st.target, ast.Name) and st.value is not None:
+            nx = self._next(st.target, st.value, st)
+            if nx is not None:
+                return nx
+        return st
+
+    def _next(self, target: ast.Name, v: ast.AST, st):
+        if not (isinstance(v, ast.Call) and isinstance(v.func, ast.Name) and v.func.id == "next" and len(v.args) == 2 and not v.keywords
+                and isinstance(v.args[0], ast.GeneratorExp) and len(v.args[0].generators) == 1 and not v.args[0].generators[0].is_async):
+            return None
+        gen, default = v.args[0], v.args[1]
+        comp = gen.generators[0]
+        if any(isinstance(x, (ast.NamedExpr, ast.Yield, ast.YieldFrom, ast.Await)) for x in ast.walk(gen)):
+            return None
+        if any(isinstance(x, ast.Name) and x.id == target.id for x in ast.walk(gen)):
+            return None
+        init = ast.Assign(targets=[ast.Name(id=target.id, ctx=ast.Store())], value=default, lineno=st.lineno)
+        hit = [ast.Assign(targets=[ast.Name(id=target.id, ctx=ast.Store())], value=gen.elt, lineno=st.lineno), ast.Break()]
+        body = hit
+        if comp.ifs:
+            test = comp.ifs[0] if len(comp.ifs) == 1 else ast.BoolOp(op=ast.And(), values=list(comp.ifs))
+            body = [ast.If(test=test, body=hit, orelse=[])]
+        loop = ast.For(target=comp.target, iter=comp.iter, body=body, orelse=[])
+        return self._fix([init, loop], st)
+
+    def visit_For(self, n):
+        self.generic_visit(n)
+        it = n.iter
+        if n.orelse or not isinstance(n.target, ast.Name) or not isinstance(it, (ast.Tuple, ast.List)) or not (1 <= len(it.elts) <= 4):
+            return n
+        if not all(isinstance(e, ast.Constant) for e in it.elts):
+            return n
+        name = n.target.id
+
+        def own_jumps(stmts) -> bool:
+            for s_ in stmts:
+                if isinstance(s_, (ast.Break, ast.Continue)):
+                    return True
+                if isinstance(s_, (ast.For, ast.While, ast.AsyncFor)):
+                    if own_jumps(s_.orelse):
+                        return True
+                    continue
+                for fld in ("body", "orelse", "finalbody"):
+                    if own_jumps(getattr(s_, fld, []) or []):
+                        return True
+                for h in getattr(s_, "handlers", []) or []:
+                    if own_jumps(h.body):
+                        return True
+            return False
+
+        if own_jumps(n.body):
+            return n
+        for x in ast.walk(ast.Module(body=n.body, type_ignores=[])):
+            if isinstance(x, ast.Name) and x.id == name and not isinstance(x.ctx, ast.Load):
+                return n
+            if isinstance(x, (ast.FunctionDef, ast.AsyncFunctionDef, ast.Lambda, ast.Global, ast.Nonlocal)):
+                return n
+        out = []
+        for c in it.elts:
+            for s_ in n.body:
+                out.append(_Subst(name, c).visit(copy.deepcopy(s_)))
+        # the loop variable keeps its last value
+        out.append(ast.Assign(targets=[ast.Name(id=name, ctx=ast.Store())], value=copy.deepcopy(it.elts[-1]), lineno=n.lineno))
+        return self._fix(out, n)
+
+
 class _TableDispatch(ast.NodeTransformer):
     """`TABLE[key](args)` where TABLE is a dict literal {constant: callable, ...} bound once (locally or at module level) becomes
     `if key == c1: f1(args) elif key == c2: f2(args) ... else: TABLE[key](args)`: the callees become visible to inlining and to the
@@ -190,6 +347,11 @@ class _TableDispatch(ast.NodeTransformer):
 def normalise_body(body: List[ast.stmt], repo: Optional[Repo] = None, f: Optional[FuncInfo] = None) -> List[ast.stmt]:
     out = []
     t, u = _LoopsToAny(), _IfExpToIf()
+    try:
+        ds = _Desugar()
+        body = [y for st in copy.deepcopy(body) for y in (lambda r_: r_ if isinstance(r_, list) else [r_])(ds.visit(st))]
+    except Exception:
+        pass
     try:
         td = _TableDispatch(repo, f, ast.Module(body=body, type_ignores=[]))
         body = [y for st in body for y in (lambda r_: r_ if isinstance(r_, list) else [r_])(td.visit(st))]
